@@ -428,9 +428,20 @@ def run_case(case: dict[str, Any]) -> CaseOut:
                         nt = True
                         out.label('move-then-copy-back')
             elif base in ('fetch', 'fetchbody'):
-                items = b'(UID FLAGS)' if base == 'fetch' else [
-                    b'(UID BODY.PEEK[TEXT])', b'(UID BODY[TEXT])',
-                    b'(UID RFC822.HEADER)', b'(UID BINARY[1])'][d % 4]
+                variants = [(b'(UID BODY.PEEK[TEXT])', False),
+                            (b'(UID BODY[TEXT])', True),
+                            (b'(UID RFC822.HEADER)', False),
+                            (b'(UID BINARY[1])', True),
+                            (b'(UID RFC822)', True),
+                            (b'(UID RFC822.TEXT)', True),
+                            (b'(UID BINARY.PEEK[1])', False),
+                            (b'(UID BODY[HEADER])', True),
+                            (b'(UID BINARY.SIZE[1] ENVELOPE BODYSTRUCTURE)',
+                             False),
+                            (b'(UID BODY[1]<0.2>)', True),
+                            (b'(UID RFC822.SIZE INTERNALDATE BODY)', False)]
+                items, sets_seen = (b'(UID FLAGS)', False) \
+                    if base == 'fetch' else variants[d % len(variants)]
                 res = c.command(pre + b'FETCH ' + ws + b' ' + items)
                 if not res.ok:
                     if not (over or (not uid_mode and n == 0)):
@@ -461,7 +472,7 @@ def run_case(case: dict[str, Any]) -> CaseOut:
                                      f'{r.data.get(b"UID")}, model position '
                                      f'holds {box.msgs[r.num - 1].uid}')
                             return out
-                    if base == 'fetchbody' and d % 4 in (1, 3):
+                    if base == 'fetchbody' and sets_seen:
                         for m in box.msgs:
                             if m.uid in target_uids:
                                 m.flags.add(b'\\seen')
